@@ -41,6 +41,8 @@ def bootstrap():
     if os.environ.get('PYTHONHASHSEED') != '0':
         os.environ['PYTHONHASHSEED'] = '0'
         os.execv(sys.executable, [sys.executable] + sys.argv)
+    os.environ['VERIF_MAINPID'] = str(os.getpid())
+    os.environ.pop('VERIF_FIXED_ROOT', None)
     sys.path.insert(0, str(REPO))
     if str(VERIF) not in sys.path:
         sys.path.insert(1, str(VERIF))
@@ -60,9 +62,23 @@ def bootstrap():
 
 
 # ---------------------------------------------------------------- scratch space
+def _scratch_base():
+    return '/dev/shm' if os.path.isdir('/dev/shm') and os.access('/dev/shm', os.W_OK) else tempfile.gettempdir()
+
+
 def scratch_root() -> Path:
-    base = '/dev/shm' if os.path.isdir('/dev/shm') and os.access('/dev/shm', os.W_OK) else None
-    return Path(tempfile.mkdtemp(prefix='rv-', dir=base))
+    # every scratch directory of one check run (main process and its workers) carries the main pid,
+    # so that Check.finish() can remove whatever the workers left behind
+    main = os.environ.setdefault('VERIF_MAINPID', str(os.getpid()))
+    return Path(tempfile.mkdtemp(prefix=f'rv-{main}-', dir=_scratch_base()))
+
+
+def cleanup_scratch():
+    main = os.environ.get('VERIF_MAINPID')
+    if main and main == str(os.getpid()):
+        import glob
+        for d in glob.glob(os.path.join(_scratch_base(), f'rv-{main}-*')):
+            shutil.rmtree(d, ignore_errors=True)
 
 
 class Scratch:
@@ -176,6 +192,7 @@ class Check:
 
     # -- finish
     def finish(self, *, exhaustive=True) -> int:
+        cleanup_scratch()
         wall = time.time() - self.t0
         cov = dict(self.coverage)
         cov.setdefault('samples', self.samples or [{'note': 'no sample recorded'}])
